@@ -154,20 +154,27 @@ S0Of(W) == [chan |-> W.chan, out |-> <<>>, nextMsg |-> W.nextMsg, shut |-> <<>>,
             act |-> W.active, setcatch |-> <<>>]
 
 
+(* what element 0 emits for a message tagged `eat` = 10 ("echo"): one self-message from its incoming hook (before the  *)
+(* handler runs) and one from its event_end hook (after it): emissions of elements and handler keep program order    *)
+EchoCmd == [c |-> "sched", g |-> "", d |-> 1, size |-> 1, eat |-> 0]
+
 Invoke(W, S, m, t, what, msg, hasMsg, cmds) ==
   LET up == PEUp(m, 0, Stack[m], msg, hasMsg)
       reaches == (~hasMsg) \/ up[2]                      \* the handler runs unless an element consumed the message
+      echo == hasMsg /\ msg.eat = 10 /\ Stack[m] >= 1
       Sa == [S EXCEPT !.chan = W.chan, !.nextMsg = W.nextMsg, !.act = W.active, !.panic = FALSE]
-      Sb == IF reaches THEN Exec(m, t, cmds, Sa) ELSE Sa
+      Sa1 == IF echo THEN Exec(m, t, <<EchoCmd>>, Sa) ELSE Sa
+      Sb == IF reaches THEN Exec(m, t, cmds, Sa1) ELSE Sa1
       (* module a also reports what Channel::is_busy / transmission_finish_time say about its outgoing channel *)
       hlog == IF reaches THEN <<what>> \o (IF m = "a" /\ 1 \in Chans THEN <<[o |-> "ch", m |-> m, busy |-> W.chan[1].busy, until |-> W.chan[1].until]>> ELSE <<>>)
               ELSE <<>>
       (* a panic that is reported (non-catching stereotype) leaves the event at once: no event_end;   *)
       (* a caught panic lets the event finish normally                                             *)
       down == IF Sb.panic /\ ~NewCatch(m, Sb)[m] THEN <<>> ELSE PEDown(m, Stack[m])
-      W1 == [W EXCEPT !.chan = Sb.chan, !.nextMsg = Sb.nextMsg, !.log = @ \o up[1] \o hlog \o down,
-                      !.active = IF Sb.panic THEN [@ EXCEPT ![m] = FALSE] ELSE @] IN
-  [W |-> W1, S |-> Sb, ran |-> reaches]
+      Sc == IF echo /\ down # <<>> THEN [Exec(m, t, <<EchoCmd>>, [Sb EXCEPT !.panic = FALSE]) EXCEPT !.panic = Sb.panic] ELSE Sb
+      W1 == [W EXCEPT !.chan = Sc.chan, !.nextMsg = Sc.nextMsg, !.log = @ \o up[1] \o hlog \o down,
+                      !.active = IF Sc.panic THEN [@ EXCEPT ![m] = FALSE] ELSE @] IN
+  [W |-> W1, S |-> Sc, ran |-> reaches]
 
 (* the event ends with the module being reset (shutdown request consumed by buf_process): inc counts the *)
 (* incarnations of the module's state = 1 + number of Module::reset calls                              *)
@@ -277,7 +284,7 @@ Step ==
           IF ~W0.active[m]
           THEN /\ Commit(W0) /\ UNCHANGED <<inc, err, dead, ninv, scripts, phase, boot, catching, scn>>
           ELSE \E cmds \in ChoicesFor(m, Menu[m]) :
-                 LET R == Invoke(W0, S0Of(W0), m, e.t, [o |-> "msg", m |-> m, id |-> e.ev.msg.id, t |-> e.t, inc |-> inc[m]], e.ev.msg, TRUE, cmds) IN
+                 LET R == Invoke(W0, S0Of(W0), m, e.t, [o |-> "msg", m |-> m, id |-> e.ev.msg.id, t |-> e.t, inc |-> inc[m], mods |-> Stack[m]], e.ev.msg, TRUE, cmds) IN
                  /\ (~R.ran => (scn > 0 \/ cmds = <<>>))   \* a consumed message runs no handler: canonical empty choice
                  /\ Commit(Finish(R.W, m, e.t, R.S))
                  /\ catching' = NewCatch(m, R.S)
